@@ -104,6 +104,38 @@ def h_history(ctx, k, form, nnames, kind):
         _agree(ctx, enums[1 - which], models[1 - which], tag + "other: ", probe)
 
 
+def h_opcode_enums(ctx, same_table):
+    """service-action enumerations of different OpCode objects (also the library's own tables) are independent"""
+    import pyscsi.pyscsi.scsi_enum_command as ec
+    from pyscsi.pyscsi.scsi_opcode import OpCode
+    t1 = {"ONE": ctx.int("v1", 3), "TWO": ctx.int("v2", 3)}
+    t2 = dict(t1) if same_table else {"ONE": ctx.int("w1", 3), "THREE": ctx.int("w3", 3)}
+    a, b = OpCode("A", 0x12, t1), OpCode("B", 0x28, t2)
+    pairs = [(a.serviceaction, b.serviceaction, dict(t1), dict(t2)),
+             (ec.spc.INQUIRY.serviceaction, ec.sbc.READ_10.serviceaction, {}, {}),
+             (ec.spc.SPC_OPCODE_A3.serviceaction, ec.sbc.SBC_OPCODE_A3.serviceaction, None, None)]
+    probe = ctx.int("probe", 3)
+    for n, (ea, eb, ma, mb) in enumerate(pairs):
+        before = sorted(eb.keys)
+        v = ctx.int("new%d" % n, 3)
+        ea.add("ADDED_NAME", v)
+        try:
+            ctx.check("pair %d: adding to one enumeration leaves the other's names alone" % n, sorted(eb.keys) == ctx.oracle_struct(before))
+            ctx.check("pair %d: the other enumeration does not see the new name" % n, not hasattr(eb, "ADDED_NAME"))
+            st, r = ctx.attempt(eb.add, "ADDED_NAME", ctx.int("other%d" % n, 3))
+            ctx.check("pair %d: the same name can still be added to the other enumeration" % n, ctx.oracle(st == "ok"), repr(r))
+            if st == "ok":
+                eb.remove("ADDED_NAME")
+            ctx.check("pair %d: removing it from the other does not remove it here" % n, getattr(ea, "ADDED_NAME", None) == ctx.oracle(v))
+            if ma is not None:
+                ma["ADDED_NAME"] = v
+                _agree(ctx, ea, ma, "pair %d first: " % n, probe)
+                _agree(ctx, eb, mb, "pair %d second: " % n, probe)
+        finally:
+            if hasattr(ea, "ADDED_NAME"):
+                ea.remove("ADDED_NAME")
+
+
 def obligations(tier):
     from symx.harness import Ob
     obs = []
@@ -114,6 +146,8 @@ def obligations(tier):
             for kind in (kinds if k <= 2 else ["int"]):
                 obs.append(Ob("history/k=%d/names=%d/%s/first-value=%s" % (k, nn, form, kind), MOD, "h_history",
                               {"k": k, "form": form, "nnames": nn, "kind": kind}, split=True))
+    for same in (True, False):
+        obs.append(Ob("opcode-service-action-enums/same-table=%s" % same, MOD, "h_opcode_enums", {"same_table": same}, split=True))
     return obs
 
 
